@@ -165,6 +165,7 @@ async fn read_eval_loop_impl<S: Runtime + 'static>(
 
         let env = &mut **env.borrow_mut();
 
+        let mut blank = false;
         let (mut result, error_recoverable) = match command {
             // No more commands
             Ok(None) => {
@@ -175,7 +176,11 @@ async fn read_eval_loop_impl<S: Runtime + 'static>(
             }
 
             // Execute the command
-            Ok(Some(command)) => (run_command(env, &command).await, true),
+            Ok(Some(command)) => {
+                // A blank line or a comment is not a command
+                blank = command.0.is_empty();
+                (run_command(env, &command).await, true)
+            }
 
             // Parser error
             Err(error) => {
@@ -199,7 +204,7 @@ async fn read_eval_loop_impl<S: Runtime + 'static>(
         // Break the loop if the command execution results in a divert
         result?;
 
-        executed = true;
+        executed |= !blank;
     }
 }
 
